@@ -65,6 +65,22 @@ static long g_data_where;
 static int k_id; /* queue-specific key: identity of the queue an invocation runs on */
 static char k_d0, k_d1;
 
+/* steering (DESIGN 5.4 in miniature): when a client hands its last reference to a block, its thread is held for
+ * a few milliseconds at the +2 that _dispatch_lane_push takes for the wakeup.  In the library as written that is
+ * between the tail exchange and the head store (the drainer just waits for the enqueuer); if the +2 is taken later the
+ * stall opens exactly the window of rdar://6932776. */
+static int g_steer;
+static __thread int t_stall_retain;
+static void steer(struct dispatch_verif_site_s *site, const volatile void *addr, int obj)
+{
+	(void)addr;
+	if (!t_stall_retain || obj < 0) return;
+	if (strstr(site->dvs_expr, "os_obj_ref_cnt") && !strcmp(site->dvs_op, "add")) {
+		t_stall_retain = 0;
+		usleep(3000 + (unsigned)(vrt_rand() % 3000));
+	}
+}
+
 static void oracle_fail(const char *what, long a, long b)
 {
 	fprintf(stderr, "ORACLE-FAIL C17 exec=%d scen=%d %s a=%ld b=%ld\n", g_exec, g_scen, what, a, b);
@@ -269,6 +285,13 @@ static void drop_all(int me)
 			int nb = (int)(vrt_rand() % 3);
 			for (int i = 0; i < nb; i++) { item_t *it = new_item(s, IK_ASYNC, vrt_rand() & 1 ? B_SLEEP : B_CHILD, 1, 0); if (it) submit(it); }
 		}
+		while (atomic_load(&g_hold[me][s]) > 1) do_release(me, s);
+		if (g_o[s].kind == KO_LANE && (vrt_rand() & 1)) {
+			/* the last reference this client holds is handed to a block that releases it when it runs (the case
+			 * of rdar://6932776: after the submission the client never touches the queue again) */
+			item_t *it = new_item(s, IK_ASYNC, B_RELEASE, 1, 0);
+			if (it) { atomic_fetch_sub(&g_hold[me][s], 1); t_stall_retain = g_steer; submit(it); t_stall_retain = 0; }
+		}
 		while (atomic_load(&g_hold[me][s]) > 0) do_release(me, s);
 	}
 }
@@ -433,9 +456,9 @@ static void proj(FILE *f, const vrt_rec_t *r)
 		switch (r->cls) {
 		case CL_REF: case CL_XREF: case CL_SREF:
 			if (r->size != 4) break;
-			fprintf(f, "{\"e\":\"%s\",\"t\":%d,\"o\":%d,\"f\":\"%s\",\"op\":\"%s\",\"old\":%d,\"new\":%d,\"ok\":%d}\n",
+			fprintf(f, "{\"e\":\"%s\",\"t\":%d,\"o\":%d,\"f\":\"%s\",\"op\":\"%s\",\"old\":%d,\"new\":%d,\"ok\":%d,\"mo\":\"%s\"}\n",
 					r->cls == CL_REF ? "R" : r->cls == CL_XREF ? "X" : "SR", r->tid, r->obj, r->site->dvs_func, op,
-					(int)(uint32_t)r->oldv, (int)(uint32_t)r->newv, r->ok);
+					(int)(uint32_t)r->oldv, (int)(uint32_t)r->newv, r->ok, r->site->dvs_mo);
 			break;
 		case CL_STATE:
 			if (r->size != 8) { fprintf(f, "{\"e\":\"StHalf\",\"t\":%d,\"o\":%d}\n", r->tid, r->obj); break; }
@@ -678,7 +701,10 @@ int main(int argc, char **argv)
 	vrt_add_class("dq_items_tail", CL_TAIL);
 	vrt_add_class("_os_mpsc_head", CL_HEAD);
 	vrt_add_class("dq_items_head", CL_HEAD);
-	vrt_set_hang_seconds(argc > 7 ? atoi(argv[7]) : 40);
+	/* progress-based: "no record and no driver progress for N seconds", never total elapsed time */
+	vrt_set_hang_seconds(argc > 7 ? atoi(argv[7]) : 90);
+	g_steer = argc > 8 ? atoi(argv[8]) : 0;
+	if (g_steer) vrt_set_steer(steer);
 	(void)vrt_tid();
 	pthread_barrier_init(&g_bar, NULL, NT + 1);
 	pthread_t th[NT];
